@@ -363,6 +363,13 @@ func c04Run(t *testing.T, in *c04In, w *c04World, ed bool) (obs c04Obs) {
 func TestVerifC04(t *testing.T) {
 	out := newVout(t, "C04")
 	defer out.close()
+	c04Generate(t, out, false)
+}
+
+// c04Generate emits the handshake cases.  blockCells: only the caller-level cells that end in a
+// refusal or admission of a provider / bidder with a well-formed echo — the cells that decide
+// which block, if any, a failed handshake places (used by the C17 check as well).
+func c04Generate(t *testing.T, out *vout, blockCells bool) {
 	rng := newVrng(vseed(), 4)
 	w := c04MkWorld(rng)
 	_ = json.Marshal
@@ -392,7 +399,10 @@ func TestVerifC04(t *testing.T) {
 				in.Prims = append(in.Prims, c04Prim(sg, append(append([]byte{}, rl...), tk...)))
 			}
 		}
-		out.emit(in, c04Run(t, in, w, ed))
+		if blockCells && (level != "caller" || tag != "matrix") {
+			return
+		}
+		out.emitAs("C04", in, c04Run(t, in, w, ed))
 	}
 	reqFrame := func(role, token, sigClass string) c04Frame {
 		var sg []byte
@@ -483,7 +493,10 @@ func TestVerifC04(t *testing.T) {
 					in.PeerAddr = &s
 					sg, _ := hex.DecodeString(rq.Sig)
 					in.Prims = append(in.Prims, c04Prim(sg, []byte("provider"+"tok")))
-					out.emit(in, c04Run(t, in, w, false))
+					if blockCells {
+						continue
+					}
+					out.emitAs("C04", in, c04Run(t, in, w, false))
 				}
 			}
 		}
